@@ -4,7 +4,7 @@
    controller update, which dependency results a task could NOT see when it was
    started, the outcome of Run, the results merged into the configuration).
    ExtrOcamlBasic only; nat stays a Coq datatype.  No Extract Constant. *)
-From Verif Require Import Flow.Model.
+From Verif Require Import Flow.Model Flow.Spec.
 From Coq Require Import List Bool Arith.
 Import ListNotations.
 
@@ -52,3 +52,8 @@ Definition c18_check_cycle (n : nat) (tbl : list (list nat)) : option bool :=
 (* boolean summary used for the vm_compute cross-check of the extraction *)
 Definition c18_accepts (w : workflow) (ls : list label) : bool :=
   match run w ls with Some _ => true | None => false end.
+
+(* the decidable hypotheses of the C18 theorems, evaluated on a generated workflow:
+   (wf_known, wf_trig, wf_closed, acyclic) *)
+Definition c18_hyps (w : workflow) : bool * bool * bool * bool :=
+  (wf_known_b w, wf_trig_b w, wf_closed_b w, acyclic_b w).
